@@ -143,7 +143,7 @@ class Guard:
 
 
 class CallRec:
-    __slots__ = ('block', 'callee', 'targets', 'args', 'argvals', 'pc', 'span', 'result', 'in_loop', 'how')
+    __slots__ = ('block', 'callee', 'targets', 'args', 'argvals', 'pc', 'span', 'result', 'in_loop', 'how', 'pointees')
 
     def __init__(self, block, callee, targets, args, argvals, pc, span, in_loop):
         self.block = block; self.callee = callee; self.targets = targets; self.args = args
@@ -321,6 +321,7 @@ class Analysis:
                 self.names.setdefault(int(m.group(1)), k)
         self.param_types = dict(body.params)
         self.havoc = {}                 # loop header -> set(keys)
+        self.exit_paths = []            # [(pc, returned value)] of every return reached
         self.loop_entry = {}            # loop header -> State on the entry edge (before widening)
         self.loop_back = {}             # loop header -> [State on each back edge]
         self.live_keys = {}             # switched-on term -> set of live outcome keys (for join completeness)
@@ -432,6 +433,7 @@ class Analysis:
                     edge[(bb, tgt)] = st2
             if t.kind == 'return':
                 final.append(st)
+        self.exit_paths = [(f_.pc, self.load((('local', 0),), f_)) for f_ in final]     # (path condition, returned value) per return
         if final:
             self.exit_state = final[0] if len(final) == 1 else self._merge(final, '__exit__')
         else:
@@ -1122,6 +1124,9 @@ class Analysis:
     def _call(self, t, st, bb):
         A = [self.operand(a, st) for a in t.args]
         rec = CallRec(bb, t.callee, None, t.args, A, st.pc, t.span, self.cfg.in_loop(bb))
+        # what a reference argument points to at the time of the call (locals and fields alike): rules read aggregates
+        # that are built in a temporary and passed by reference
+        rec.pointees = [self.load(a[1], st) if a[0] == 'ref' else None for a in A]
         self.calls.append(rec)
         res = self._call_builtin(t, A, st, bb, rec)
         if res is None:
@@ -1162,6 +1167,14 @@ class Analysis:
             except ValueError:
                 pass
         rec.how = 'builtin'
+        # ---- vec![a, b, ..]: Box::new_uninit() ; *ptr = [a, b, ..] ; box_assume_init_into_vec_unsafe(box)
+        if last == 'new_uninit' and not A and 'Box' in cs:
+            return ('uf', 'Box::new_uninit', ('sym', '%s:%s' % (self.body.fid, bb)))
+        if last == 'box_assume_init_into_vec_unsafe' and len(A) == 1:
+            b0 = self.load(A[0][1], st) if A[0][0] == 'ref' else A[0]
+            keys = [k for k in st.store.keys() if k[0] == ('ptr', b0)]
+            if len(keys) == 1 and st.store.get(keys[0])[0] in ('array',):
+                return st.store.get(keys[0])
         # ---- arithmetic / comparison traits
         if tr in ('Add', 'Sub', 'Mul', 'Div', 'Rem') and len(A) == 2 and self._numeric_ty(ty):
             return mk(tr.lower(), D(0), D(1))
@@ -1295,6 +1308,14 @@ class Analysis:
                 old = self.load(A[0][1], st)
                 self.write(A[0][1], ('push', old, A[1]), st, bb, t.span)
                 return UNIT
+            if last == 'insert' and len(A) == 3 and A[0][0] == 'ref':
+                old = self.load(A[0][1], st)
+                self.write(A[0][1], ('vinsert', old, A[1], A[2]), st, bb, t.span)
+                return UNIT
+            if last == 'remove' and len(A) == 2 and A[0][0] == 'ref':
+                old = self.load(A[0][1], st)
+                self.write(A[0][1], ('vremove', old, A[1]), st, bb, t.span)
+                return self.project(old, ('idx', A[1]), st)
             if last in ('first', 'last', 'first_mut', 'last_mut') and len(A) == 1 and A[0][0] == 'ref':
                 coll = self.load(A[0][1], st)
                 i = ZERO if last.startswith('first') else mk('sub', ('len', coll), ONE)
